@@ -4,6 +4,7 @@ For each: git -C /repo apply patch.diff, run ./check <property> (quick, then tho
 always undo with git -C /repo checkout -- . ; writes seeded/<id>/result.json."""
 import json, os, subprocess, sys, glob, time
 ROOT = os.path.dirname(os.path.dirname(os.path.abspath(__file__)))
+REPO = os.environ.get("VERIF_REPO", "/repo")  # a private copy when run in the background (tools/seeded_all.sh)
 
 
 def sh(cmd, **kw):
@@ -11,7 +12,7 @@ def sh(cmd, **kw):
 
 
 def clean():
-    st = sh("git -C /repo status --porcelain --untracked-files=no").stdout.strip()
+    st = sh("git -C %s status --porcelain --untracked-files=no" % REPO).stdout.strip()
     return st == ""
 
 
@@ -28,7 +29,7 @@ def main():
             return 1
         res = {"id": sid, "runs": []}
         try:
-            a = sh("git -C /repo apply %s" % os.path.join(d, "patch.diff"))
+            a = sh("git -C %s apply %s" % (REPO, os.path.join(d, "patch.diff")))
             if a.returncode != 0:
                 res["error"] = "patch does not apply: " + a.stdout[-300:]
                 print(sid, res["error"])
@@ -43,7 +44,7 @@ def main():
                     if p.returncode == 1:
                         break
         finally:
-            sh("git -C /repo checkout -- .")
+            sh("git -C %s checkout -- ." % REPO)
         res["caught"] = any(r["exit"] == 1 for r in res["runs"])
         json.dump(res, open(os.path.join(d, "result.json"), "w"), indent=1)
     return 0
